@@ -444,9 +444,14 @@ func (m *Manager) addTCPConnection(allocation *Allocation, conn net.Conn) (proto
 	tcpConn := &tcpConnection{conn, atomic.Bool{}, nil}
 	allocation.tcpConnections[connectionID] = tcpConn
 	tcpConn.bindTimer = time.AfterFunc(m.tcpConnectionBindTimeout, func() {
+		// Decide under the lock that ConnectionBind takes: a bind that is being handled
+		// right now either comes first, and the connection stays, or finds it gone.
+		m.lock.Lock()
+		defer m.lock.Unlock()
+
 		if !tcpConn.isBound.Load() {
 			m.log.Warnf("Removing TCP Connection that was never bound %v %v", connectionID, allocation.fiveTuple)
-			allocation.RemoveTCPConnection(m, connectionID)
+			allocation.removeTCPConnection(connectionID)
 		}
 	})
 
